@@ -11,6 +11,7 @@ import (
 func init() {
 	vrt.Register("zzverif.VC14", VC14)
 	vrt.Register("zzverif.VC14Sym", VC14Sym)
+	vrt.Register("zzverif.VC14Equ", VC14Equ)
 }
 
 // label-free, position-independent statements (one per handler family and
@@ -162,4 +163,34 @@ func VC14Sym() {
 	}
 	vrt.Assert(acc.d == 0, "c14.concatsym")
 	_ = strings.Join
+}
+
+
+// VC14Equ: statements that reference a common EQU name: what one statement
+// does with the name (multiplying it, dividing it) must not change the bytes
+// of the next one.
+func VC14Equ() {
+	mode := []int{16, 32}[vrt.Choose("mode", 2)]
+	pool := []string{"MOV AX,FOO*2", "MOV BX,FOO", "DB FOO*5", "ADD DX,FOO", "DW FOO", "DD FOO/2", "MOV CL,FOO%2", "MOV AL,[BX+FOO]", "DW FOO+1", "CMP AX,FOO*FOO"}
+	a := vrt.ChooseStr("a", pool)
+	b := vrt.ChooseStr("b", pool)
+	pre := "FOO EQU 3\n"
+	oa, oca, da := asmFresh(pre+a, mode, "a")
+	ob, ocb, db := asmFresh(pre+b, mode, "b")
+	oab, ocab, dab := asmPlain(pre+a+"\n"+b, mode, "ab")
+	vrt.Note("a", a)
+	vrt.Note("b", b)
+	vrt.NoteBytes("out_a", oa)
+	vrt.NoteBytes("out_b", ob)
+	vrt.NoteBytes("out_ab", oab)
+	if oca != "ok" || ocb != "ok" || da || db {
+		vrt.Reach("c14e.rejected")
+		return
+	}
+	vrt.Reach("c14e.accepted")
+	ok := ocab == "ok" && !dab && len(oab) == len(oa)+len(ob)
+	if ok {
+		ok = string(oab[:len(oa)]) == string(oa) && string(oab[len(oa):]) == string(ob)
+	}
+	vrt.Assert(ok, "c14.equ")
 }
